@@ -391,6 +391,32 @@ pub fn v4_mcast_mac(ip: &[u8; 4]) -> [u8; 6] {
     [0x01, 0x00, 0x5e, ip[1] & 0x7f, ip[2], ip[3]]
 }
 
+/// Overwrite the transport (ICMP / ICMPv6 / TCP / UDP) checksum field of a request frame. The
+/// responder never verifies inbound checksums, so such requests are answered like valid ones —
+/// and their replies must be just as well-formed. Returns false if the frame has no such field.
+pub fn set_l4_checksum(f: &mut [u8], val: u16) -> bool {
+    if f.len() < 14 {
+        return false;
+    }
+    let (l4, proto) = match be16(f, 12) {
+        ET_V4 if f.len() >= 34 => (14 + ((f[14] & 0x0f) as usize * 4).max(20), f[14 + 9]),
+        ET_V6 if f.len() >= 54 => (54, f[14 + 6]),
+        _ => return false,
+    };
+    let off = match proto {
+        P_ICMP | P_ICMP6 => l4 + 2,
+        P_TCP => l4 + 16,
+        P_UDP => l4 + 6,
+        _ => return false,
+    };
+    if off + 2 > f.len() {
+        return false;
+    }
+    f[off] = (val >> 8) as u8;
+    f[off + 1] = val as u8;
+    true
+}
+
 // ---------------------------------------------------------------------------------------
 // strict reply decoder + well-formedness check
 
